@@ -53,6 +53,29 @@ func c13Policies(seed int64, n int, ts []*vlib.Target) []vlib.PolicySpec {
 			out[len(out)-1] = mutateSpec(r, out[len(out)-2], ts)
 		}
 	}
+	// sibling lists: one syscall listed two or three times in a group, every list a single condition with the same
+	// operation on the same argument and another operand (what a compiler may be tempted to merge), for every operation;
+	// once with a further entry of another syscall in between
+	for oi, op := range seccomp.Operations {
+		for v := 0; v < 2; v++ {
+			t := ts[(oi+v)%len(ts)]
+			r := caseRand(run, 900000+oi*2+v)
+			nm, other := t.Names[r.Intn(len(t.Names))], t.Names[r.Intn(len(t.Names))]
+			arg := uint32((oi + v) % 6)
+			one := func(val uint64) seccomp.NameWithConditions {
+				return seccomp.NameWithConditions{Name: nm, Conditions: seccomp.ArgumentConditions{{Argument: arg, Operation: op, Value: val}}}
+			}
+			with := []seccomp.NameWithConditions{one(0x10), one(0x0400_0000_0001)}
+			if v == 1 {
+				with = append(with, one(0x8000_0000_0000_0002))
+				if other != nm {
+					with = append(with[:1], append([]seccomp.NameWithConditions{{Name: other, Conditions: seccomp.ArgumentConditions{{Argument: arg, Operation: op, Value: 0x20}}}}, with[1:]...)...)
+				}
+			}
+			p := &seccomp.Policy{DefaultAction: vlib.RetAllow, Syscalls: []seccomp.SyscallGroup{{NamesWithCondtions: with, Action: vlib.RetErrno}}}
+			out = append(out, vlib.SpecOf(p, t.Name))
+		}
+	}
 	return out
 }
 
@@ -407,6 +430,44 @@ func c13Workload(run *vlib.Run, ts []*vlib.Target, nPolicies, rounds int) {
 							return
 						}
 						run.Count("earlier_results_checked_after_later_calls", 1)
+						// a finer edit: one condition of the compiled value changed where it stands (operand, operation or argument
+						// index; no length, name or action changes), compiled again: what a fresh, equal policy gives
+						edited := false
+					findCond:
+						for gi := range p.Syscalls {
+							for ei := range p.Syscalls[gi].NamesWithCondtions {
+								cs := p.Syscalls[gi].NamesWithCondtions[ei].Conditions
+								if len(cs) == 0 {
+									continue
+								}
+								ci := (k + g + round) % len(cs)
+								switch (k + g + round) % 3 {
+								case 0:
+									cs[ci].Value ^= 1 << uint((k*7+g)%64)
+								case 1:
+									for _, op := range seccomp.Operations {
+										if op != cs[ci].Operation {
+											cs[ci].Operation = op
+											break
+										}
+									}
+								default:
+									cs[ci].Argument = (cs[ci].Argument + 1) % 6
+								}
+								edited = true
+								break findCond
+							}
+						}
+						if edited {
+							fresh := vlib.SpecOf(p, s.Arch).Policy() // a deep copy of the value as it is now
+							want := vlib.Compile(fresh, t)
+							got := vlib.Compile(p, t)
+							run.Count("recompilations_after_a_condition_was_edited_in_place", 1)
+							if dw, dg := progDigest(want.Ins, want.Err), progDigest(got.Ins, got.Err); dw != dg {
+								run.Violation("stale-after-in-place-edit", fmt.Sprintf("policy %d: after one condition was changed in place, the same Policy value compiles to something else than a fresh equal policy", i+1), map[string]any{"check": "C13", "policy": vlib.SpecOf(p, s.Arch)})
+								return
+							}
+						}
 						continue
 					}
 					if (k+g)%4 == 0 {
